@@ -8,6 +8,7 @@ RULE = ("Constructor argument tuples computed by TLC: valid tuples over the shap
         "error?, Validate()/ValidateStructure() error?, Bytes() error?, and the serialisation parsed back through the structure's reader "
         "(error?, remainder, identical re-serialisation). Values obtained by parsing are covered by the round-trip predicates of C01. "
         "Lease/Lease2.Validate consult the clock and are judged only for end dates after 2097.")
+RULE += (' AddAddress histories; transient DSA/P-256 and mismatched signers; Mapping parsed from unsorted wire order handed to NewLeaseSet2; literal KeysAndCert; huge and pre-epoch instants.')
 ASSUME = [common.TRUSTED, "time-dependent expiry checks excluded as the property states", "a defect is 'documented' when Validate/ValidateStructure of the same package rejects it"]
 META = {
     "level": "model_checking",
